@@ -53,6 +53,8 @@ class ScriptGen:
         # its own variables (both are legal, not in one script)
         self.use_builtins = rng.random() < self.o['builtins']
         self.shadow_builtins = (not self.use_builtins) and rng.random() < 0.2
+        # register words are case-sensitive: `Kelvin` is an ordinary name
+        self.caps_names = rng.random() < 0.12
         self.lights = [b['label'] for b in population]
         self.groups = sorted({b.get('group', 'Group') for b in population})
         self.locs = sorted({b.get('location', 'Home') for b in population})
@@ -274,6 +276,9 @@ class ScriptGen:
             pool = ['va', 'vb', 'vc', 'counter', 'total']
             if self.shadow_builtins:
                 pool += ['floor', 'round', 'sqrt']
+            if self.caps_names:
+                pool = ['Kelvin', 'Duration', 'Hue', 'Time', 'KELVIN',
+                        'Brightness']
             name = r.choice(pool)
         if name in self.vars and r.random() < 0.5:
             expr = '{{{} + {}}}'.format(name, self._num(1, 9))
